@@ -83,7 +83,7 @@ WHY_MISSED = {
     "C13-weibull_upper_tail_series": "a series approximation on a draw-dependent branch cannot be judged by an identity (a correct truncated series is not identical either): reported as not decided by C13; C03 reports the changed result range",
     "C03-binv_cutoff": "the change makes BINV run with a large n·p (a slow walk, not a wrong value): it is reported by C05's BINV restart rule; C03's clauses are not affected",
     "C03-invgauss_conjugate": "InverseGaussian's generic abstract result is already unconstrained (x > 0 needs relational algebra), so a NaN that appears only at one draw value is invisible — declared limit of the interval domain",
-    "C05-hin_unbounded_walk": "termination of a float recurrence (p underflows before u is used up) is numerical; a shape rule for it fires on try_sample's legitimate descent loop (§11.5)",
+    "C05-hin_unbounded_walk": "termination of a float recurrence (p underflows before u is used up) is numerical; a shape rule for it fires on try_sample's legitimate descent loop (§11.5) — C05 stays silent; since HIN has a reference (C02, §11.9) the missing `x < k` bound is reported there (the walk's guard is a test of the reference)",
     "C07-gamma_zero_retry": "the retry compares x with 0, which is scale-equivariant over the reals; only underflow of the scale breaks it (outside the claim: real arithmetic). C05 reports the new loop for the smallest shapes",
     "C08-clone_from_reuse": "the forgotten field (weight_sum) does not influence validation; the change is a purity matter (a clone that behaves differently from its source) and is reported by C14's clone_from rule",
     "C08-leftover_clamp": "exactness of the alias table is numerical and not claimed (only the validation clause and the weight sum are)",
